@@ -145,11 +145,17 @@ T_exit == /\ Is("exit") /\ Finished
 T_late == /\ final = "error" /\ l <= Len(Rec) /\ Rec[l].ev \notin {"exit", "report"}
           /\ Consume /\ UNCHANGED vars
 
+\* once the outer loop has returned an Err the runtime is dropped: whatever the cancelled validators
+\* and tasks still log (a spawn, a call, a JoinError for a cancelled task) has no effect any more
+T_late_async == /\ asyncRes = "err" /\ l <= Len(Rec)
+                /\ Rec[l].ev \in {"task_spawn", "tasks_spawned", "task_call", "task_ret", "task_join"}
+                /\ Consume /\ UNCHANGED vars
+
 TraceNext ==
   \/ T_run_start \/ S_SpawnSync \/ T_sync_spawned \/ S_FinishSync \/ T_join_sync \/ T_merge_sync \/ S_SyncDone
   \/ S_SpawnAV \/ T_async_spawned \/ T_task_spawn \/ T_tasks_spawned \/ T_task_call \/ S_Send \/ T_task_ret
   \/ T_task_join \/ S_AVDone \/ S_EmptyAttr \/ T_join_async \/ T_merge_async \/ S_AsyncDone
-  \/ S_MainJoinSync \/ T_merge_final \/ S_MainJoinAsync \/ T_report \/ T_exit \/ T_late
+  \/ S_MainJoinSync \/ T_merge_final \/ S_MainJoinAsync \/ T_report \/ T_exit \/ T_late \/ T_late_async
 
 TraceSpec == TraceInit /\ [][TraceNext]_tvars
 
